@@ -62,7 +62,9 @@ template <class E, class Enum> void enum_factory(char const *ename, int const si
       vrt::nontrivial(size > 1);
       vrt::maybe_sample();
       P const p(make());
-      lockstep<E>(nm, p, std::uniform_int_distribution<base>(lo, hi), seed, true, lo, hi, no_two_arg{});
+      P const q{typename P::min(static_cast<Enum>(hi)), typename P::max(static_cast<Enum>(hi))}; // stored while drawing with p per call
+      lockstep<E>(nm, p, std::uniform_int_distribution<base>(lo, hi), seed, true, lo, hi, no_two_arg{}, q,
+                  std::uniform_int_distribution<base>(hi, hi), hi, hi);
     }
     if (vrt::out_of_time())
       return;
@@ -164,13 +166,20 @@ template <class E, class R> void uniform_real_family(char const *rname)
   static_assert(std::is_same_v<typename P::distribution, std::uniform_real_distribution<base>>);
   std::string const nm = std::string("uniform_real<") + rname + "," + E::name + ">";
   char const *const fn = intern(nm);
-  for (real_pair const &pr : uniform_real_params())
+  std::vector<real_pair> const params = uniform_real_params();
+  for (std::size_t k = 0; k < params.size(); ++k)
   {
+    real_pair const &pr = params[k];
     if (vrt::out_of_time())
       return;
     base const a = static_cast<base>(pr.x), b = static_cast<base>(pr.y);
     if (!(a < b))
       continue; // not distinct in float
+    // the other parameter set (stored while drawing with per-call parameters)
+    std::size_t kq = (k + 5) % params.size();
+    while (!(static_cast<base>(params[kq].x) < static_cast<base>(params[kq].y)))
+      kq = (kq + 1) % params.size();
+    base const qa = static_cast<base>(params[kq].x), qb = static_cast<base>(params[kq].y);
     for (u64 const seed : seeds())
     {
       for (int reset_at : {-1, 3})
@@ -182,12 +191,13 @@ template <class E, class R> void uniform_real_family(char const *rname)
         vrt::nontrivial(true);
         vrt::maybe_sample();
         P const p{typename P::min(rt<R>::wrap(a)), typename P::sup(rt<R>::wrap(b))};
+        P const q{typename P::min(rt<R>::wrap(qa)), typename P::sup(rt<R>::wrap(qb))};
         lockstep<E>(
             nm, p, std::uniform_real_distribution<base>(a, b), seed, false, a, b,
             [&] {
               return fcppt::random::distribution::basic<P>(typename P::min(rt<R>::wrap(a)), typename P::sup(rt<R>::wrap(b)));
             },
-            reset_at);
+            q, std::uniform_real_distribution<base>(qa, qb), qa, qb, reset_at);
       }
     }
   }
@@ -200,11 +210,15 @@ template <class E, class R> void normal_family(char const *rname)
   static_assert(std::is_same_v<typename P::distribution, std::normal_distribution<base>>);
   std::string const nm = std::string("normal<") + rname + "," + E::name + ">";
   char const *const fn = intern(nm);
-  for (real_pair const &pr : normal_params())
+  std::vector<real_pair> const params = normal_params();
+  for (std::size_t k = 0; k < params.size(); ++k)
   {
+    real_pair const &pr = params[k];
     if (vrt::out_of_time())
       return;
     base const m = static_cast<base>(pr.x), s = static_cast<base>(pr.y);
+    real_pair const &prq = params[(k + 5) % params.size()]; // stored while drawing with per-call parameters
+    base const qm = static_cast<base>(prq.x), qs = static_cast<base>(prq.y);
     for (u64 const seed : seeds())
     {
       // normal_distribution keeps a second value between calls: reset() after an odd
@@ -218,12 +232,13 @@ template <class E, class R> void normal_family(char const *rname)
         vrt::nontrivial(true);
         vrt::maybe_sample();
         P const p{typename P::mean(rt<R>::wrap(m)), typename P::stddev(rt<R>::wrap(s))};
+        P const q{typename P::mean(rt<R>::wrap(qm)), typename P::stddev(rt<R>::wrap(qs))};
         lockstep<E>(
             nm, p, std::normal_distribution<base>(m, s), seed, false, m, s,
             [&] {
               return fcppt::random::distribution::basic<P>(typename P::mean(rt<R>::wrap(m)), typename P::stddev(rt<R>::wrap(s)));
             },
-            reset_at);
+            q, std::normal_distribution<base>(qm, qs), qm, qs, reset_at);
       }
     }
   }
